@@ -368,6 +368,10 @@ GuardWitness ==
             THEN GuardCode(d.t, vv) ELSE 0
        ELSE 0
 
+\* exit codes of failures the monitor cannot attribute to a caller: those below a when_changed task (tracked under
+\* that task's own printed path) and those of shared executions (observed by every task that references them)
+UntrackedCodes == UNION {dead[p].xs : p \in {p \in DOMAIN dead : p[1][1] = "w" \/ (Walk(p).ok /\ IsDedup(Walk(p).t))}}
+
 RetViol(r) ==
   (IF Running # {} THEN {Viol("C07", "returned-while-running")} ELSE {})
   \cup
@@ -378,7 +382,7 @@ RetViol(r) ==
   (IF RootDead # {} /\ r.code = 0 THEN {Viol("C03", "failure-lost")} ELSE {})
   \cup
   (IF RootDead # {} /\ r.code # 0 /\ ~AnyGuard /\
-      ~(r.code = 201 /\ (r.xcode \in UNION {dead[p].xs : p \in RootDead} \/ (r.xcode = 201 /\ (HasDedup \/ \E p \in DOMAIN dead : ~dead[p].sure))))
+      ~(r.code = 201 /\ (r.xcode \in (UNION {dead[p].xs : p \in RootDead}) \cup UntrackedCodes \/ (r.xcode = 201 /\ (HasDedup \/ \E p \in DOMAIN dead : ~dead[p].sure))))
    THEN {Viol("C03", IF \A p \in RootDead : dead[p].viaDep THEN "status-of-dep-failure" ELSE "status")} ELSE {})
   \cup
   (IF DOMAIN dead = {} /\ ~AnyGuard /\ ~Cyclic /\ r.code # 0 /\ r.code # 204 THEN {Viol("C03", "spurious-error")} ELSE {})
